@@ -15,3 +15,37 @@ package msgpipeline
 
 //@ extern func config.NodeErr(node config.Node, f string, args []any) error
 //@   ensures result != nil
+
+// ---- C06: merging of check results ----
+// wfRes: a result with a flag set carries a reason (what FailAction.Apply guarantees for results it produced).
+//@ pure func wfRes(r module.CheckResult) bool = (r.Reject || r.Quarantine) ==> r.Reason != nil
+// The two sync.Once values guard the two error slots: once fired, the slot is set.
+//@ func (*checkRunner).runAndMergeResults$1$1
+//@   prop C06
+//@   modifies data.wg
+//@ func (*checkRunner).runAndMergeResults$1$2
+//@   prop C06
+//@   modifies data.rejectErr
+//@   ensures data.rejectErr == subCheckRes.Reason
+//@ func (*checkRunner).runAndMergeResults$1$3
+//@   prop C06
+//@   modifies data.quarantineErr
+//@   ensures data.quarantineErr == subCheckRes.Reason
+// The goroutine body (one check): a rejecting result sets the reject slot, a quarantining one the quarantine slot,
+// slots are never cleared.
+//@ func (*checkRunner).runAndMergeResults$1
+//@   prop C06
+//@   modifies *
+//@   requires (addrOf(data.setRejectErr).done ==> data.rejectErr != nil) && (addrOf(data.setQuarantineErr).done ==> data.quarantineErr != nil)
+//@   ensures (addrOf(data.setRejectErr).done ==> data.rejectErr != nil) && (addrOf(data.setQuarantineErr).done ==> data.quarantineErr != nil)
+//@   ensures old(data.rejectErr) != nil ==> data.rejectErr != nil
+//@   ensures old(data.quarantineErr) != nil ==> data.quarantineErr != nil
+//@   ensures wfRes(subCheckRes) && subCheckRes.Reject ==> data.rejectErr != nil
+//@   ensures wfRes(subCheckRes) && subCheckRes.Quarantine && !subCheckRes.Reject ==> data.quarantineErr != nil
+// The stage method of a check (called through the captured runner) does not touch the merge bookkeeping of the
+// enclosing runAndMergeResults call (it cannot reach it: the struct is local to that call). Assumed.
+//@ extern func (*checkRunner).runAndMergeResults$1#runner$call(s module.CheckState) module.CheckResult
+//@   modifies *
+//@   ensures data.rejectErr == old(data.rejectErr) && data.quarantineErr == old(data.quarantineErr)
+//@   ensures addrOf(data.setRejectErr).done == old(addrOf(data.setRejectErr).done) && addrOf(data.setQuarantineErr).done == old(addrOf(data.setQuarantineErr).done)
+//@   ensures wfRes(result)
